@@ -3,11 +3,14 @@
 package main
 
 import (
+	"encoding/hex"
 	"fmt"
 	"math/rand"
 	"net/url"
 	"os"
 	"path/filepath"
+	"regexp"
+	"runtime"
 	"servitor/ansi"
 	"servitor/config"
 	"servitor/jtp"
@@ -45,26 +48,76 @@ func linkTable(v any, out *[]any) {
 
 var hookSeq = 0
 
+var sgrPattern = regexp.MustCompile("\x1b\\[[0-9;]*m")
+
 func waitSettled(s *ui.State) bool { return waitSettledWith(s, s.VerifSettled) }
 
 /* with a harness-held hook, `opening` is a resting state */
 func waitSettledHeld(s *ui.State) bool { return waitSettledWith(s, s.VerifSettledHookHeld) }
 
+/*
+The loading flags and the mode are set under the mutex before the call that starts a load
+
+	returns, so one look under the mutex is exact; a second look after yielding the processor
+	guards the bookkeeping of the frame callback.
+*/
 func waitSettledWith(s *ui.State, settled func() bool) bool {
 	deadline := time.Now().Add(8 * time.Second)
-	stable := 0
-	for time.Now().Before(deadline) {
+	for i := 0; time.Now().Before(deadline); i++ {
 		if settled() {
-			stable++
-			if stable >= 2 {
+			runtime.Gosched()
+			if settled() {
 				return true
 			}
-		} else {
-			stable = 0
 		}
-		time.Sleep(2 * time.Millisecond)
+		if i < 20 {
+			time.Sleep(200 * time.Microsecond)
+		} else {
+			time.Sleep(2 * time.Millisecond)
+		}
 	}
 	return false
+}
+
+/* BYTES <hex>: a key token of raw bytes (JSON strings cannot carry bytes that are not UTF-8) */
+func keyBytes(k string) []byte {
+	if strings.HasPrefix(k, "BYTES ") {
+		b, _ := hex.DecodeString(k[6:])
+		return b
+	}
+	return []byte(k)
+}
+
+/*
+the simulator holds every request: wait until the interface is settled, or a request is
+
+	being held and nothing has moved for a while (a load is in flight and stays in flight).
+	Never waits for the interface's mutex: a loader that harvests a collection keeps it while it
+	waits for the network.  inflight = the interface is in loading mode with the mutex free, so
+	keys can be delivered while the load is in flight.
+*/
+func waitHeldOrSettled(s *ui.State) (ok bool, inflight bool) {
+	deadline := time.Now().Add(8 * time.Second)
+	quiet := 0
+	for time.Now().Before(deadline) {
+		if settled, _, _ := s.VerifTrySettledHookHeld(); settled {
+			runtime.Gosched()
+			if settled, _, locked := s.VerifTrySettledHookHeld(); settled && locked {
+				return true, false
+			}
+		}
+		if atomic.LoadInt32(&simHeldNow) > 0 {
+			quiet++
+			if quiet >= 4 {
+				_, loadingMode, locked := s.VerifTrySettledHookHeld()
+				return true, locked && loadingMode
+			}
+		} else {
+			quiet = 0
+		}
+		time.Sleep(time.Millisecond)
+	}
+	return false, false
 }
 
 func init() {
@@ -132,8 +185,29 @@ func init() {
 		if B(op, "hookfails") {
 			config.Parsed.Media.Hook = []string{"verifwait", "%url", "fail"}
 		}
+		/* what the hook writes and how it ends: fail (two lines on stderr), failquiet (no output),
+		   failbig (much output on both streams), failbin (control bytes, escape sequences, bytes
+		   that are not UTF-8), okbig (much output, success) */
+		if m := S(op, "hookmode"); m != "" {
+			config.Parsed.Media.Hook = []string{"verifwait", "%url", m}
+		}
+		var hookState *ui.State
 		releaseHooks := func() {
 			os.WriteFile(gate, []byte("go"), 0o644)
+			/* the gate stays open until the hook that put the interface into `opening` has been
+			   seen to exit (a hook started a moment ago may not have looked at the gate yet) */
+			if hookState != nil {
+				for waited := 0; waited < 5000; waited++ {
+					opening := false
+					if _, _, free := hookState.VerifTrySettledHookHeld(); free {
+						hookState.VerifLocked(func() { opening = hookState.VerifMode() == 4 })
+						if !opening {
+							break
+						}
+					}
+					time.Sleep(time.Millisecond)
+				}
+			}
 			time.Sleep(40 * time.Millisecond)
 			os.Remove(gate)
 		}
@@ -171,8 +245,31 @@ func init() {
 			prevHeight = -1
 			fm.Unlock()
 		}
+		hookState = s
 		snaps := []any{}
-		if err := s.Subcommand("open", start); err != nil {
+		op["keys_sub"] = []any{}
+		/* the address typed after :open goes through url.Parse like every other: its record goes
+		   into the table when Enter is about to be pressed on such a command line */
+		send := func(b byte) {
+			if b == '\r' {
+				s.VerifLocked(func() {
+					if buf := s.VerifBuffer(); s.VerifMode() == 2 && strings.HasPrefix(buf, "open ") {
+						arg := buf[5:]
+						if pu, err := url.Parse(arg); err == nil {
+							op["urltable"].(map[string]any)[arg] = urlRecord(pu)
+							op["urltable"].(map[string]any)[pu.String()] = urlRecord(pu)
+						}
+					}
+				})
+			}
+			s.Update(b)
+		}
+		/* how main starts the interface: `servitor open <x>` or `servitor feed <name>` */
+		startcmd := S(op, "startcmd")
+		if startcmd == "" {
+			startcmd = "open"
+		}
+		if err := s.Subcommand(startcmd, start); err != nil {
 			return map[string]any{"subcommanderr": true}
 		}
 		if !waitSettledHeld(s) {
@@ -180,6 +277,8 @@ func init() {
 		}
 		snaps = append(snaps, s.VerifSnapshot())
 		keys := []any{}
+		heldFlags := []any{}
+		defer func() { op["held"] = heldFlags }()
 		for _, raw := range L(op, "keys") {
 			k := substitute(raw.(string), sm.hosts, opid)
 			keys = append(keys, k)
@@ -202,13 +301,121 @@ func init() {
 				rest := strings.SplitN(k, " ", 4)[3]
 				atomic.StoreInt64(&simLatencyMicros, 60000)
 				for _, b := range []byte(rest) {
-					s.Update(b)
+					send(b)
 				}
 				resize(w, h)
 				atomic.StoreInt64(&simLatencyMicros, 0)
 				if !waitSettledHeld(s) {
 					return map[string]any{"wedged": "after a resize while loading", "snaps": snaps}
 				}
+				snaps = append(snaps, s.VerifSnapshot())
+				continue
+			}
+			if strings.HasPrefix(k, "HELDS\x1f") {
+				/* HELDS <starter> <during>...: the starter (j, k, space, c, r, a) leaves the loads of
+				   the surroundings in flight, held by the simulator; the remaining tokens - none of
+				   which looks at the surroundings or starts a page load - arrive while they are, and
+				   only then the simulator answers.  The settled state is the one of the same tokens
+				   typed one by one. */
+				parts := strings.Split(k, "\x1f")[1:]
+				atomic.StoreInt32(&simHold, 1)
+				jtp.VerifCachePurge()
+				for _, b := range keyBytes(parts[0]) {
+					send(b)
+				}
+				ok, inflight := waitHeldOrSettled(s)
+				if !ok {
+					atomic.StoreInt32(&simHold, 0)
+					return map[string]any{"wedged": "while the simulator held the requests", "snaps": snaps}
+				}
+				_, _, free := s.VerifTrySettledHookHeld()
+				if !free {
+					/* a loader keeps the mutex while it waits: nothing can be delivered before it is answered */
+					atomic.StoreInt32(&simHold, 0)
+					if !waitSettledHeld(s) {
+						return map[string]any{"wedged": "after a held load", "snaps": snaps}
+					}
+				}
+				if !inflight {
+					for _, d := range parts[1:] {
+						if strings.HasPrefix(d, "RESIZE ") {
+							var w, h int
+							fmt.Sscanf(d, "RESIZE %d %d", &w, &h)
+							resize(w, h)
+							continue
+						}
+						if d == "HOOKDONE" {
+							releaseHooks()
+							continue
+						}
+						for _, b := range keyBytes(d) {
+							send(b)
+						}
+					}
+				}
+				atomic.StoreInt32(&simHold, 0)
+				if !waitSettledHeld(s) {
+					return map[string]any{"wedged": "after keys typed while the surroundings were loading", "snaps": snaps}
+				}
+				heldFlags = append(heldFlags, inflight)
+				snaps = append(snaps, s.VerifSnapshot())
+				continue
+			}
+			if strings.HasPrefix(k, "HELD\x1f") {
+				/* HELD <starter> <during>...: the simulator holds every request, the starter token is
+				   typed, and if that leaves a page load in flight (loading mode, a request held) the
+				   remaining tokens arrive while it is; then the simulator answers.  When the starter
+				   needed nothing from the network the remaining tokens are typed one by one as usual.
+				   Which of the two happened is reported to the model (op field "held"). */
+				parts := strings.Split(k, "\x1f")[1:]
+				atomic.StoreInt32(&simHold, 1)
+				/* nothing is answered from the cache: the starter needs the network */
+				jtp.VerifCachePurge()
+				for _, b := range keyBytes(parts[0]) {
+					send(b)
+				}
+				ok, inflight := waitHeldOrSettled(s)
+				if !ok {
+					atomic.StoreInt32(&simHold, 0)
+					return map[string]any{"wedged": "while the simulator held the requests", "snaps": snaps}
+				}
+				if inflight {
+					for _, d := range parts[1:] {
+						if strings.HasPrefix(d, "RESIZE ") {
+							var w, h int
+							fmt.Sscanf(d, "RESIZE %d %d", &w, &h)
+							resize(w, h)
+							continue
+						}
+						for _, b := range keyBytes(d) {
+							send(b)
+						}
+					}
+				}
+				atomic.StoreInt32(&simHold, 0)
+				if !waitSettledHeld(s) {
+					return map[string]any{"wedged": "after a held load", "snaps": snaps}
+				}
+				if !inflight {
+					for _, d := range parts[1:] {
+						if strings.HasPrefix(d, "RESIZE ") {
+							var w, h int
+							fmt.Sscanf(d, "RESIZE %d %d", &w, &h)
+							resize(w, h)
+							if !waitSettledHeld(s) {
+								return map[string]any{"wedged": "after resize", "snaps": snaps}
+							}
+							continue
+						}
+						for _, b := range keyBytes(d) {
+							send(b)
+							if !waitSettledHeld(s) {
+								return map[string]any{"wedged": fmt.Sprintf("after key %q", b), "snaps": snaps}
+							}
+						}
+					}
+				}
+				heldFlags = append(heldFlags, inflight)
 				snaps = append(snaps, s.VerifSnapshot())
 				continue
 			}
@@ -221,8 +428,8 @@ func init() {
 				snaps = append(snaps, s.VerifSnapshot())
 				continue
 			}
-			for _, b := range []byte(k) {
-				s.Update(b)
+			for _, b := range keyBytes(k) {
+				send(b)
 				if !waitSettledHeld(s) {
 					return map[string]any{"wedged": fmt.Sprintf("after key %q", b), "snaps": snaps}
 				}
@@ -261,7 +468,17 @@ func init() {
 		all := append([]string{}, frames...)
 		fm.Unlock()
 		op["frameheights"] = hs
-		op["frames_sample"] = toAnyList(lastN(all, 3))
+		/* the last frames, and the frames that report a failure (hook output, unknown commands) */
+		sample := lastN(all, 3)
+		failures := 0
+		for _, f := range all {
+			/* (every character of a frame carries its own style sequence) */
+			if failures < 4 && strings.Contains(sgrPattern.ReplaceAllString(f, ""), "Failed to") {
+				sample = append(sample, f)
+				failures++
+			}
+		}
+		op["frames_sample"] = toAnyList(sample)
 		_ = bad
 		sm.takeLog()
 		return map[string]any{"snaps": snaps, "opened": opened}
@@ -297,6 +514,7 @@ func genUI(r *rand.Rand, n int, emit func(Op)) {
 		}
 		notes := []string{}
 		noteFields := []map[string]any{}
+		tallWorld := r.Intn(8) == 0
 		mkNote := func(h int, name string, author any, extra map[string]any) string {
 			fields := map[string]any{"type": "Note", "id": g.url(h, name), "mediaType": "text/plain"}
 			/* media: what the o key opens (typed, untyped, several candidates, none) */
@@ -321,9 +539,21 @@ func genUI(r *rand.Rand, n int, emit func(Op)) {
 				fields["published"] = "not a time"
 			}
 			fields["content"] = "plain words " + name
+			if tallWorld && r.Intn(3) == 0 {
+				/* an item much taller than any terminal (hundreds of lines) */
+				fields["content"] = strings.Repeat("a line of "+name+"\n", 120+r.Intn(300)) + "last line"
+			}
 			if len(notes) > 0 && r.Intn(2) == 0 {
 				/* links to other objects of the world, selectable by number */
 				fields["content"] = "see " + pick(r, notes) + " and " + pick(r, []string{aliceURL, bobURL, pick(r, notes)}) + " end"
+			}
+			if len(notes) > 0 && r.Intn(9) == 0 {
+				/* more links than one digit can name: 10, 11, 12 are links, 010 is not the eighth */
+				words := []string{"many:"}
+				for k := 0; k < 9+r.Intn(5); k++ {
+					words = append(words, pick(r, []string{aliceURL, bobURL, pick(r, notes), pick(r, notes)}))
+				}
+				fields["content"] = strings.Join(words, " ")
 			}
 			if author != nil {
 				fields["attributedTo"] = author
@@ -420,8 +650,28 @@ func genUI(r *rand.Rand, n int, emit func(Op)) {
 		/* key tokens */
 		keys := []any{}
 		nk := 3 + r.Intn(25)
+		long := r.Intn(14) == 0
+		if long {
+			/* a long session: hundreds of tokens, a deep history */
+			nk = 100 + r.Intn(120)
+		}
+		feedNames := []string{"home", "mixed", "one", "none", "unknown", "", " home", "home ", "Home", "home\x00", "ho me"}
+		rawBytes := func(n int) string {
+			b := make([]byte, n)
+			for i := range b {
+				b[i] = byte(r.Intn(256))
+				if b[i] == 0x1f {
+					b[i] = 0x80
+				}
+			}
+			return "BYTES " + hex.EncodeToString(b)
+		}
 		for k := 0; k < nk; k++ {
-			switch weighted(r, 30, 6, 3, 3, 2, 2) {
+			weights := []int{30, 6, 3, 3, 2, 2, 5, 4, 4, 2, 2}
+			if long {
+				weights = []int{60, 6, 3, 2, 1, 1, 4, 3, 2, 2, 1}
+			}
+			switch weighted(r, weights...) {
 			case 0:
 				keys = append(keys, pick(r, []string{"j", "j", "j", "k", "k", "g", "h", "l", " ", " ", "c", "r", "a", "o", "p", "b"}))
 			case 1:
@@ -434,9 +684,89 @@ func genUI(r *rand.Rand, n int, emit func(Op)) {
 					/* multi-byte input and backspace: the buffer is edited by runes */
 					":a\nb", ":x\ny z\r", ":\n\r", "1\n", ":é\x7f", ":é\x7f\x7f", ":é\x7f\x7fj", ":aé漢\x7f\x7f\x7f\x7fk", ":😀\x7f\x7f\x7f\x7f\x7f", ":é\x7f\x7f\x7f\x7f\x7f "}))
 			case 4:
-				keys = append(keys, string([]byte{byte(r.Intn(256))}))
+				keys = append(keys, string([]byte{byte(r.Intn(128))}))
 			case 5:
-				keys = append(keys, pick(r, []string{"\x00", "\xff", "\t", "\n", "Z", "~", "é"}))
+				keys = append(keys, pick(r, []string{"\x00", "\t", "\n", "Z", "~", "é", rawBytes(1), rawBytes(1), rawBytes(2)}))
+			case 6:
+				/* numbers: leading zeros, more digits than there are links, the edges of the integer
+				   types, followed by every kind of key */
+				num := pick(r, []string{"01", "02", "007", "00", "000", "10", "11", "100", "010", "08", "09", "012", "0x1", "1_0", "4", "5", "6", "8", "9", "21", "0000000000000000000001", "00000000000000000000000000000002",
+					"9223372036854775807", "9223372036854775808", "18446744073709551615", "18446744073709551617", "4294967297", "2147483648"})
+				keys = append(keys, num+pick(r, []string{".", ".", "\r", "\r", "\x1b", "\x7f", "\x7f.", "\x7f\r", "\x7f\x7f.", "\x7f\x7f\x7f", "j", "k", " ", "g", "h", ":", "o", "\n", ".."}))
+			case 7:
+				/* Escape or Backspace at a point of a partially typed command or number, the rest
+				   of it typed all the same */
+				base := pick(r, []string{":open " + pick(r, starts), ":open " + pick(r, starts), ":feed " + pick(r, []string{"home", "mixed", "one"}), "12", "123", "21", ":bogus arg"})
+				at := r.Intn(len(base) + 1)
+				edit := pick(r, []string{"\x7f", "\x7f", "\x7f\x7f", "\x1b", "\x1b", "\x7fx", "\x7f\x7f\x7f\x7f\x7f\x7f\x7f\x7f"})
+				if r.Intn(3) == 0 && at > 0 {
+					/* erase and retype the same characters */
+					n := 1 + r.Intn(at)
+					if n > 6 {
+						n = 6
+					}
+					edit = strings.Repeat("\x7f", n) + base[at-n:at]
+				}
+				keys = append(keys, base[:at]+edit+base[at:]+pick(r, []string{"\r", "\r", ".", "", "\x1b"}))
+			case 8:
+				/* the documented subcommands with odd arguments */
+				st := pick(r, starts)
+				keys = append(keys, pick(r, []string{
+					":open \r", ":open   \r", ":open " + st + " \r", ":open  " + st + "\r", ":open " + st + "#frag\r", ":open " + st + "?x=1\r",
+					":open " + strings.Replace(st, "https://", "HTTPS://", 1) + "\r", ":open " + strings.Replace(st, "https://", "http://", 1) + "\r",
+					":open " + strings.TrimPrefix(st, "https://") + "\r", ":open " + st + "/\r", ":open " + st + "%\r", ":open " + st + "%20\r",
+					":open https://\r", ":open https://{H0}\r", ":open ://\r", ":open @\r", ":open @nobody\r", ":open !\r", ":open /\r", ":open ../x\r", ":open ./\r",
+					":open " + strings.Repeat("x", 150+r.Intn(400)) + "\r", ":open https://{H0}/{OP}/" + strings.Repeat("y", 400) + "\r",
+					":open é漢😀\r", ":open \x00\r", ":open a b c\r", ":open " + st + "\n\r",
+					":feed " + pick(r, feedNames) + "\r", ":feed " + pick(r, feedNames) + "\r", ":feed  home\r", ":feed home mixed\r", ":feed " + strings.Repeat("f", 300) + "\r",
+					":FEED home\r", ":Open " + st + "\r", ":feed\r", ":open\x7f\x7f\x7f\x7ffeed home\r", ": open " + st + "\r", ":  \r", ":open" + st + "\r",
+					":feed home\r:feed one\r", ":open " + st + "\r" + pick(r, []string{"j", "h", "1."}),
+				}))
+			case 9:
+				/* a command line of arbitrary bytes */
+				keys = append(keys, ":", rawBytes(1+r.Intn(12)), pick(r, []string{"\r", "\r", "\x1b", " x\r", "\x7f\x7f\r"}))
+			case 10:
+				/* a command line that begins like a subcommand and goes on in arbitrary bytes */
+				keys = append(keys, pick(r, []string{":open ", ":feed ", ":open https://{H0}/{OP}/"}), rawBytes(1+r.Intn(6)), "\r")
+			}
+		}
+		if long {
+			/* a deep history: many pages opened one from the other, all the way back, all the way
+			   forward, a new page from the middle */
+			deep := []any{}
+			d := 8 + r.Intn(30)
+			for k := 0; k < d; k++ {
+				deep = append(deep, pick(r, []string{"j", "k", "j", "", ""}), pick(r, []string{" ", " ", " ", "c", "a", "1.", ":open " + pick(r, starts) + "\r"}))
+			}
+			for k := 0; k < d+2; k++ {
+				deep = append(deep, "h")
+			}
+			for k := 0; k < d/2; k++ {
+				deep = append(deep, "l")
+			}
+			deep = append(deep, " ", "l", "l", "h", "h")
+			for k := 0; k < d+2; k++ {
+				deep = append(deep, "l")
+			}
+			at := r.Intn(len(keys) + 1)
+			keys = append(keys[:at:at], append(deep, keys[at:]...)...)
+		}
+		/* keys that arrive while a page load is in flight: every kind of key token */
+		if r.Intn(3) == 0 {
+			for n := 1 + r.Intn(2); n > 0; n-- {
+				starter := pick(r, []string{":open " + pick(r, starts) + "\r", ":open " + pick(r, starts) + "\r", ":feed " + pick(r, []string{"home", "mixed", "one", "none"}) + "\r", "1.", "2.", "1."})
+				tok := "HELD\x1f" + starter
+				for k := 1 + r.Intn(5); k > 0; k-- {
+					tok += "\x1f" + pick(r, []string{"j", "k", "g", "h", "h", "l", " ", "c", "r", "a", "o", "p", "b", "\x1b", "\x1b", "\x7f", ":", "1", "1.", "2\r", "12", ":open " + pick(r, starts) + "\r",
+						":feed one\r", ":bogus x\r", "\r", ".", "\x00", "é", rawBytes(1), fmt.Sprintf("RESIZE %d %d", 1+r.Intn(120), 1+r.Intn(60)), fmt.Sprintf("RESIZE %d %d", 1+r.Intn(8), 2+r.Intn(3))})
+				}
+				ins := []any{tok}
+				if r.Intn(2) == 0 {
+					/* look at the page the keys would have acted on */
+					ins = append(ins, "h")
+				}
+				at := r.Intn(len(keys) + 1)
+				keys = append(keys[:at:at], append(ins, keys[at:]...)...)
 			}
 		}
 		/* a resize that arrives while a page is loading */
@@ -483,14 +813,25 @@ func genUI(r *rand.Rand, n int, emit func(Op)) {
 		/* terminal resizes between keys, also in the middle of typing a command or a number;
 		   often only one of the two dimensions changes */
 		uiW, uiH := 20+r.Intn(100), 2+r.Intn(50)
+		/* the smallest terminals: widths 1..8 (no room for an item), heights 1, 2, 3 */
+		if r.Intn(6) == 0 {
+			uiW = 1 + r.Intn(8)
+		}
+		if r.Intn(6) == 0 {
+			uiH = 1 + r.Intn(3)
+		}
 		if r.Intn(2) == 0 {
 			w, h := uiW, uiH
 			for k := 0; k < 1+r.Intn(3); k++ {
-				switch r.Intn(3) {
+				switch r.Intn(5) {
 				case 0:
 					h = 1 + r.Intn(60)
 				case 1:
 					w = 1 + r.Intn(120)
+				case 2:
+					h = pick(r, []int{1, 2, 2, 3, 3, 4})
+				case 3:
+					w = 1 + r.Intn(8)
 				default:
 					w, h = 1+r.Intn(120), 1+r.Intn(60)
 				}
@@ -498,13 +839,55 @@ func genUI(r *rand.Rand, n int, emit func(Op)) {
 				at := r.Intn(len(keys) + 1)
 				if r.Intn(2) == 0 {
 					/* while a command or a number is being typed */
-					typing := pick(r, []string{":", ":op", "1", "12", ":feed ho"})
+					typing := pick(r, []string{":", ":op", "1", "12", ":feed ho", ":open " + strings.Repeat("long ", 40), "123456789012345678901234567890"})
 					rest := pick(r, []string{"\x1b", "\r", ".", "\x7f", "j"})
 					keys = append(keys[:at:at], append([]any{typing, resize, rest}, keys[at:]...)...)
 				} else {
 					keys = append(keys[:at:at], append([]any{resize}, keys[at:]...)...)
 				}
 			}
+		}
+		/* keys that arrive while the surroundings of a page are still loading (the page itself
+		   is there): everything but j and k, which look at what has been loaded so far */
+		if r.Intn(3) == 0 {
+			for n := 1 + r.Intn(2); n > 0; n-- {
+				/* the starter begins in normal mode and is a single key (a second j would look at what
+				   the first one is still loading); every token in between leaves no command line or
+				   number open (an open command line would turn later keys into an :open), only the
+				   last one may */
+				tok := "HELDS\x1f\x1b" + pick(r, []string{" ", " ", "j", "k", "c", "a", "r", "j", "k"})
+				for k := 1 + r.Intn(6); k > 0; k-- {
+					tok += "\x1f" + pick(r, []string{"g", "h", "h", "l", " ", " ", "c", "r", "a", "o", "p", "b", "\x1b", "\x7f", ":x\x1b", ":open x\x1b", "1\x1b", "12\x7f\x7f", "0.", "99.", ":\r", ":bogus x\r", ":feed unknown\r",
+						"\x00", "é", "Z", fmt.Sprintf("RESIZE %d %d", 1+r.Intn(120), 2+r.Intn(58)), fmt.Sprintf("RESIZE %d %d", 1+r.Intn(8), 2+r.Intn(3))})
+				}
+				if r.Intn(3) == 0 {
+					tok += "\x1f" + pick(r, []string{"1", "12\x7f", ":open x\x7f", ":x", ":", "o"})
+				}
+				ins := []any{tok}
+				if r.Intn(2) == 0 {
+					ins = append(ins, pick(r, []string{"h", "l", "j", "k"}))
+				}
+				at := r.Intn(len(keys) + 1)
+				keys = append(keys[:at:at], append(ins, keys[at:]...)...)
+			}
+		}
+		/* every kind of status line and the loading frame on the smallest terminals: two or three
+		   rows, or a handful of columns */
+		if r.Intn(4) == 0 {
+			tw, th := uiW, pick(r, []int{2, 2, 3, 3, 4})
+			if r.Intn(3) == 0 {
+				tw, th = 1+r.Intn(8), pick(r, []int{2, 3, 5, 24})
+			}
+			block := []any{fmt.Sprintf("RESIZE %d %d", tw, th)}
+			for k := 2 + r.Intn(5); k > 0; k-- {
+				block = append(block, pick(r, []string{":bogus x\r", ":feed unknown\r", "1", "12\x1b", ":", ":op", "\x1b", "o", "p", "1\r", "HOOKDONE", "j", "k", " ", ":open " + pick(r, starts) + "\r", ":feed mixed\r", "g", "h"}))
+			}
+			block = append(block, "HOOKDONE")
+			if r.Intn(2) == 0 {
+				block = append(block, fmt.Sprintf("RESIZE %d %d", 20+r.Intn(100), 2+r.Intn(50)))
+			}
+			at := r.Intn(len(keys) + 1)
+			keys = append(keys[:at:at], append(block, keys[at:]...)...)
 		}
 		/* a second outbox (bob's) and feeds merging outboxes, threads and collections */
 		bacts := []any{}
@@ -536,6 +919,18 @@ func genUI(r *rand.Rand, n int, emit func(Op)) {
 				keys[k] = ":feed " + pick(r, []string{"home", "mixed", "one", "none", "unknown"}) + "\r"
 			}
 		}
-		emit(Op{"op": "ui", "routes": g.routes, "start": pick(r, starts), "keys": keys, "feeds": feeds, "width": uiW, "height": uiH, "hookfails": r.Intn(3) == 0})
+		op := Op{"op": "ui", "routes": g.routes, "start": pick(r, starts), "keys": keys, "feeds": feeds, "width": uiW, "height": uiH,
+			"hookmode": pick(r, []string{"", "", "", "fail", "fail", "failquiet", "failbig", "failbin", "okbig"})}
+		/* started the other documented way: `servitor feed <name>` (an unknown name or command ends
+		   the program before any page exists) */
+		switch r.Intn(12) {
+		case 0:
+			op["startcmd"], op["start"] = "feed", pick(r, []string{"home", "mixed", "one", "none", "home", "mixed", "unknown", ""})
+		case 1:
+			if r.Intn(4) == 0 {
+				op["startcmd"] = pick(r, []string{"bogus", "Open", "feed ", "open "})
+			}
+		}
+		emit(op)
 	}
 }
